@@ -426,3 +426,18 @@ def r6(ctx: Ctx) -> None:
     for attr in ("high_frequency_agents", "normal_frequency_agents"):
         for w in ctx.cg.writers_of("Simulator", attr):
             ctx.check(caller_ok(ctx, w.func, lambda g: g.qualname in ("Simulator.__init__", q)), w.func, w.node, f"writer of Simulator.{attr}", "Simulator.__init__ | Simulator._add_agent", w.func.qualname)
+
+
+@rule("C09.H2", "mechanism shared with C03: a matching round that was started really matches: its only early return is `nothing executable`", "T3 guard on early returns (same rule as C03.R4)", floor=1)
+def h2(ctx: Ctx) -> None:
+    from .c03 import r4 as early_return_rule
+
+    early_return_rule(ctx)
+
+
+@rule("C09.H3", "mechanism shared with C18: each session is set up from its own entry of the configuration (caps, rate and switches of one session never reach the next)", "T12 loop-carried dataflow (same rule as C18.R8)", floor=3)
+def h3(ctx: Ctx) -> None:
+    from .c18 import check_no_carry_over
+
+    n = check_no_carry_over(ctx)
+    ctx.require(n >= 3, "expansion loops not found")
